@@ -296,6 +296,9 @@ def check_conversion(ctx, obj, idx, M, step, sig, det, values=None):
                 continue
             area, closure = unwrapped_area(item["ring"])
             pole = closure > 180 or bool(np.any(np.abs(item["ring"][:, 1]) >= 90 - 1e-6))  # winds around / touches a pole: no planar reference
+            # ... or has an edge whose end points lie 180 degrees of longitude apart: that great-circle edge runs through the pole itself
+            _dl = np.abs(np.mod(np.diff(np.append(item["ring"][:, 0], item["ring"][0, 0])) + 180.0, 360.0) - 180.0)
+            pole = pole or bool(np.any(np.abs(_dl - 180.0) < 1e-4))
             inside = all(np.all(p[:, 0] >= -180 - 2e-5) and np.all(p[:, 0] <= 180 + 2e-5) for p in ps)
             narrow = all((p[:, 0].max() - p[:, 0].min()) < 180 + 2e-5 for p in ps) or pole
             tot = sum(ring_area(p) for p in ps)
